@@ -170,6 +170,17 @@ pub fn term_of(v: &Val, rng: &mut Rng, style: Style) -> Option<OwnedTerm> {
             }
             OwnedTerm::Map(m)
         }
+        // an identifier may also be held in the node-local form it arrived in (8 opaque bytes + its ordinary encoding)
+        Val::Pid { .. } | Val::Port { .. } | Val::Ref { .. } if style == Style::Mixed && rng.chance(1, 3) && crate::refmodel::encode::ref_encode_canonical(v).is_ok() => {
+            let mut local = rng.bytes(8);
+            local.extend_from_slice(&crate::refmodel::encode::ref_encode_canonical(v).unwrap()[1..]);
+            match v {
+                Val::Pid { node, id, serial, creation } => OwnedTerm::Pid(ExternalPid::with_local_ext_bytes(Atom::new(node), *id, *serial, *creation, local)),
+                Val::Port { node, id, creation } => OwnedTerm::Port(ExternalPort::with_local_ext_bytes(Atom::new(node), *id, *creation, local)),
+                Val::Ref { node, creation, ids } => OwnedTerm::Reference(ExternalReference::with_local_ext_bytes(Atom::new(node), *creation, ids.clone(), local)),
+                _ => unreachable!(),
+            }
+        }
         Val::Pid {
             node,
             id,
